@@ -55,6 +55,31 @@ def loops(max_n, subsets):
     return fn
 
 
+SMALL = [1, 3, 4, 8, 9, 16, 17, 32, 55, 56, 63, 64, 65, 111, 112, 127, 128, 129, 200, 240, 241, 256, 1023, 1024]
+
+
+def small_sizes(b, sym):
+    """file lengths at the internal thresholds of the algorithms (xxh3: 16 / 128 / 240 bytes, md5 / sha1: 55 / 64, sha512: 111 / 128):
+    the model treats every digest as one uninterpreted function of the bytes, so the value of these paths is in their real replays
+    (every one of them is replayed on the real program, and all are in the witness corpus)"""
+    import ascmhl.hasher as HA
+    n = sym.choose("n", SMALL)
+    sel = sym.choose("formats_in_one_pass", [LIB7, ["xxh128", "xxh3"], ["xxh3", "xxh64", "xxh32"], ["md5", "sha1", "c4"]])
+    b.mkfile("R/s.bin", 12, size=n)
+    path = b.p("R/s.bin")
+    got = HA.multiple_format_hash_file(path, list(sel))
+    got2 = HA.AggregateHasher.hash_file(path, list(sel))
+    for f in sel:
+        b.require(truth(got[f] == b.H(f, "R/s.bin")), "multiple_format_hash_file", "format %s in one pass over %s, %d bytes" % (f, sel, n))
+        b.require(truth(got2[f] == b.H(f, "R/s.bin")), "AggregateHasher.hash_file", "format %s in one pass over %s, %d bytes" % (f, sel, n))
+        b.require(truth(HA.hash_file(path, f) == b.H(f, "R/s.bin")), "hash_file", "format %s, %d bytes" % (f, n))
+    r = b.run("create", root="R", h=[f for f in sel if f != "xxh32"])
+    b.require(r.exit == 0 and r.exc is None, "create-exit-0", str(r))
+    rec = b.manifests("R")[-1].record("s.bin")
+    for e in rec.entries:
+        b.require(truth(e.digest == b.H(e.fmt, "R/s.bin")), "create-digest", "%s, %d bytes" % (e.fmt, n))
+
+
 def oneshot(b, sym):
     """one-shot library entry points on literal data and the decode helpers"""
     import ascmhl.hasher as HA
@@ -279,6 +304,9 @@ def _harnesses(tier):
                      % ("all 127" if subs == "all" else len(subs)),
                 bounds={"file length n": "0..%d (every value; read size taken from the real call)" % max_n, "subsets": subs},
                 outside=out, stubs=["open() of the hashed file: reader whose read(k) returns the byte range [pos, pos+min(k, n-pos))"]),
+        Harness("c01-small", small_sizes, frontier=4, budget_s=600, conformance=96,
+                what="24 file lengths at the internal thresholds of the algorithms x 4 sets of formats computed in one pass: library entry points and create",
+                bounds={"n": SMALL, "format sets": 4}, outside=out),
         Harness("c01-oneshot", oneshot, frontier=4, budget_s=600,
                 what="hash_data / Hasher.hash_data / multiple_format_hash_data on literal data, all 7 formats, all 127 subsets",
                 bounds={"data": "4 literal byte strings (the model treats literal bytes as opaque ids)"}, outside=out),
